@@ -1,3 +1,4 @@
+import Fpdec.Kernels.DecRound
 import Fpdec.Kernels.WideFits
 import Fpdec.Kernels.Round
 import Fpdec.Lemmas.Rounding
@@ -262,5 +263,11 @@ theorem kernel_checked_mul_pow_ten (prof : Profile) (val : Int) (n : Nat) :
 theorem kernel_i128_div_rounded (prof : Profile) (tm : Mode) (a b : Int) (mode : Option Mode) (ha : fitsI128 a = true) :
     Gen.K.i128_div_rounded prof tm a b mode = i128DivRounded prof tm a b mode :=
   Kernels.i128_div_rounded_eq prof tm a b mode ha
+
+/-- `impl Round for Decimal` (src/round.rs), both methods, as translated from the source on this run -/
+theorem kernel_decimal_round (prof : Profile) (tm : Mode) (d : Dec) (n : Int) (hd : fitsI128 d.coeff = true) :
+    Gen.K.decimal_round prof tm d n = round prof tm d n := Kernels.decimal_round_eq prof tm d n hd
+theorem kernel_decimal_checked_round (prof : Profile) (tm : Mode) (d : Dec) (n : Int) (hd : fitsI128 d.coeff = true) :
+    Gen.K.decimal_checked_round prof tm d n = checkedRound prof tm d n := Kernels.decimal_checked_round_eq prof tm d n hd
 
 end Fpdec.Props.C05
